@@ -1246,6 +1246,12 @@ impl HnswBackend {
         let mut snapshot_last_wal_seq = 0u64;
         let mut snapshot_timestamp = 0u64;
         let mut max_wal_seq = 0u64;
+        // Strict mode: when recovery falls back to a snapshot older than the one the MANIFEST
+        // committed, the WAL entries in between may already have been compacted away. Track
+        // the sequence range that the retained WAL must still cover.
+        let mut fallback_required_seqs: Option<(u64, u64)> = None;
+        let mut fallback_seen_seqs: std::collections::BTreeSet<u64> =
+            std::collections::BTreeSet::new();
 
         if let Some(snapshot_name) = &manifest.latest_snapshot {
             let snapshot_path = data_dir.join(snapshot_name);
@@ -1306,6 +1312,14 @@ impl HnswBackend {
                     }
 
                     if recovered_from_fallback {
+                        if let (RecoveryMode::Strict, Some(committed_seq)) =
+                            (recovery_mode, manifest.latest_snapshot_wal_seq)
+                        {
+                            if snapshot_last_wal_seq < committed_seq {
+                                fallback_required_seqs =
+                                    Some((snapshot_last_wal_seq, committed_seq));
+                            }
+                        }
                         warn!(
                             documents = documents.len(),
                             "snapshot loaded from fallback (primary corrupted)"
@@ -1372,6 +1386,11 @@ impl HnswBackend {
                 if entry.seq_no > max_wal_seq {
                     max_wal_seq = entry.seq_no;
                 }
+                if let Some((after, upto)) = fallback_required_seqs {
+                    if entry.seq_no > after && entry.seq_no <= upto {
+                        fallback_seen_seqs.insert(entry.seq_no);
+                    }
+                }
 
                 // Skip entries already captured in snapshot (sequence-based)
                 if snapshot_last_wal_seq > 0
@@ -1435,6 +1454,22 @@ impl HnswBackend {
                 wal_segment = wal_name,
                 "wal replay complete"
             );
+        }
+
+        if let Some((after, upto)) = fallback_required_seqs {
+            let required = upto - after;
+            if (fallback_seen_seqs.len() as u64) < required {
+                anyhow::bail!(
+                    "strict recovery mode: primary snapshot unusable and fallback snapshot (wal_seq={}) \
+                     is older than the committed snapshot (wal_seq={}), but the retained WAL covers only {} of \
+                     the {} sequence numbers in between (segments were compacted); refusing to start with \
+                     missing writes",
+                    after,
+                    upto,
+                    fallback_seen_seqs.len(),
+                    required
+                );
+            }
         }
 
         // Rebuild HNSW index from recovered documents.
